@@ -48,8 +48,76 @@ def gen_box():
           "proxy AND counts the reception (one proxy object, `____refcount__` 2) instead of creating a second one over it",
           "or finding it without counting. -/",
           "def oneProxyAcrossInspect : Bool := %s" % ("true" if probe_one_proxy_across_inspect() else "false")]
+    L += ["", "/-- observed on the live `Connection._unbox` (dummy channel, no I/O): when a package cannot be unboxed — the",
+          "class of one of its objects cannot be inspected, or it holds a stale LOCAL_REF — a release notice (HANDLE_DEL, 1)",
+          "goes out for every REMOTE_REF of the package that no proxy took over. -/",
+          "def failedUnboxReleases : Bool := %s" % ("true" if probe_failed_unbox() else "false")]
     L += ["", "end Rpyc.Gen.Box", ""]
     return "\n".join(L)
+
+
+def probe_failed_unbox():
+    """True: after a failed `_unbox` one HANDLE_DEL(…, 1) was sent per REMOTE_REF that no proxy took over (in both failure
+    shapes); False: some were not."""
+    import gc
+    from rpyc.core import brine, consts
+    from rpyc.core.protocol import Connection
+    from rpyc.core.service import VoidService
+
+    class Chan(object):
+        closed = False
+
+        def __init__(self):
+            self.sent = []
+
+        def close(self):
+            pass
+
+        def send(self, data):
+            self.sent.append(data)
+
+    def releases(conn):
+        out = []
+        for data in conn._channel.sent:
+            msg, _seq, args = brine.load(data)
+            if msg == consts.MSG_REQUEST and args[0] == consts.HANDLE_DEL:
+                boxed = args[1]          # (TUPLE, ((LOCAL_REF, id_pack), (VALUE, count)))
+                out.append((tuple(boxed[1][0][1]), boxed[1][1][1]))
+        return sorted(out)
+    lst1, lst2, far = ("builtins.list", 11, 12), ("builtins.list", 11, 13), ("probe.Uninspectable", 21, 22)
+    results = []
+    # 1. the second object's class cannot be inspected: the first is taken over by a proxy (which releases it when it
+    #    goes), the failing one and the one behind it are not
+    conn = Connection(VoidService(), Chan())
+    conn._closed = True
+
+    def inspect(handler, *args):
+        raise RuntimeError("the class cannot be inspected")
+    conn.sync_request = inspect
+    package = (consts.LABEL_TUPLE, ((consts.LABEL_REMOTE_REF, lst1), (consts.LABEL_REMOTE_REF, far),
+                                    (consts.LABEL_TUPLE, ((consts.LABEL_REMOTE_REF, lst2),))))
+    try:
+        conn._unbox(package)
+    except RuntimeError:
+        pass
+    else:
+        raise Inexpressible("a package with an un-inspectable class was unboxed in the failed-unbox probe")
+    gc.collect()
+    results.append(releases(conn) == sorted([(lst1, 1), (far, 1), (lst2, 1)]))
+    # 2. a stale LOCAL_REF: refused in the first pass, nothing is taken over
+    conn = Connection(VoidService(), Chan())
+    conn._closed = True
+    package = (consts.LABEL_TUPLE, ((consts.LABEL_REMOTE_REF, lst1), (consts.LABEL_LOCAL_REF, ("no.Such", 1, 2)),
+                                    (consts.LABEL_REMOTE_REF, lst1)))
+    try:
+        conn._unbox(package)
+    except KeyError:
+        pass
+    else:
+        raise Inexpressible("a package with a stale LOCAL_REF was unboxed in the failed-unbox probe")
+    gc.collect()
+    results.append(releases(conn) == [(lst1, 1), (lst1, 1)])
+    return all(results)
 
 
 def probe_one_proxy_across_inspect():
